@@ -113,6 +113,7 @@ status_t Thread :: StartInternalThread()
       ThreadSpecificData & tsd = _threadData[MESSAGE_THREAD_INTERNAL];
       DECLARE_MUTEXGUARD(tsd._queueLock);
       needsInitialSignal = tsd._messages.HasItems();
+      MUSCLE_VERIF_EVENT("StartCheck", this, needsInitialSignal ? 1 : 0, 0, 0, 0);
    }
    if (needsInitialSignal) SignalInternalThread();  // make sure he gets his already-queued messages!
    return B_NO_ERROR;
